@@ -1,5 +1,9 @@
 //! Ops that need the cfg(john_yu_sm9_core_verif) hooks: raw limbs, the internal tower, the final
 //! exponentiation steps and the two Miller loops.
+//!
+//! Every op that names a private method beyond the basic ring operations of Fq4 / Fq12 belongs to a group that can be
+//! compiled out with `--cfg john_yu_sm9_core_verif_skip_<group>` (f4x, f12x, pow, powfr, fexpm, fexp, ml, fqx, sop, raw, prep):
+//! when the tree under test has refactored that method, the runner drops the group and the op answers `bad unknown op`.
 use crate::*;
 use sm9_core::verif_hooks as vh;
 use sm9_core::verif_hooks::{FieldElement, Fq12, Fq4, GroupElement, RawFq, RawFq2};
@@ -127,11 +131,17 @@ pub fn exec(regs: &Regs, op: &str, p: &[&str]) -> R {
             Some(v) => Out::V(Val::F4(v)),
             None => Out::None,
         }),
+        #[cfg(not(john_yu_sm9_core_verif_skip_f4x))]
         "f4.mul_1" => v4(a_f4(regs, p[0])?.mul_1(&a_f4(regs, p[1])?)),
+        #[cfg(not(john_yu_sm9_core_verif_skip_f4x))]
         "f4.frob" => v4(a_f4(regs, p[0])?.frobenius_map(a_usize(p[1])?)),
+        #[cfg(not(john_yu_sm9_core_verif_skip_f4x))]
         "f4.scale" => v4(a_f4(regs, p[0])?.scale(&rfq2(regs, p[1])?)),
+        #[cfg(not(john_yu_sm9_core_verif_skip_f4x))]
         "f4.scale_fq" => v4(a_f4(regs, p[0])?.scale_fq(&rfq(regs, p[1])?)),
+        #[cfg(not(john_yu_sm9_core_verif_skip_f4x))]
         "f4.nonres" => v4(a_f4(regs, p[0])?.mul_by_nonresidue()),
+        #[cfg(not(john_yu_sm9_core_verif_skip_f4x))]
         "f4.unitary" => v4(a_f4(regs, p[0])?.unitary_inverse()),
         "f4.is_zero" => Ok(Out::Bool(a_f4(regs, p[0])?.is_zero())),
         "f4.eq" => Ok(Out::Bool(a_f4(regs, p[0])? == a_f4(regs, p[1])?)),
@@ -151,55 +161,83 @@ pub fn exec(regs: &Regs, op: &str, p: &[&str]) -> R {
             Some(v) => Out::V(Val::F12(v)),
             None => Out::None,
         }),
+        #[cfg(not(john_yu_sm9_core_verif_skip_f12x))]
         "f12.mul_015" => v12(a_f12(regs, p[0])?.mul_015(&a_f12(regs, p[1])?)),
+        #[cfg(not(john_yu_sm9_core_verif_skip_f12x))]
         "f12.frob" => v12(a_f12(regs, p[0])?.frobenius_map(a_usize(p[1])?)),
+        #[cfg(not(john_yu_sm9_core_verif_skip_f12x))]
         "f12.scale" => v12(a_f12(regs, p[0])?.scale(&a_f4(regs, p[1])?)),
+        #[cfg(not(john_yu_sm9_core_verif_skip_f12x))]
         "f12.nonres" => v12(a_f12(regs, p[0])?.mul_by_nonresidue()),
+        #[cfg(not(john_yu_sm9_core_verif_skip_pow))]
         "f12.pow128" => v12(vh::fq12_pow_u128(&a_f12(regs, p[0])?, a_u128(p[1])?)),
+        #[cfg(not(john_yu_sm9_core_verif_skip_powfr))]
         "f12.powfr" => v12(FieldElement::pow(&a_f12(regs, p[0])?, vh::fr_inner(&a_fr(regs, p[1])?))),
         "f12.is_zero" => Ok(Out::Bool(a_f12(regs, p[0])?.is_zero())),
         "f12.eq" => Ok(Out::Bool(a_f12(regs, p[0])? == a_f12(regs, p[1])?)),
+        #[cfg(not(john_yu_sm9_core_verif_skip_fexpm))]
         "f12.fexp" => Ok(match a_f12(regs, p[0])?.final_exponentiation() {
             Some(v) => Out::V(Val::F12(v)),
             None => Out::None,
         }),
+        #[cfg(not(john_yu_sm9_core_verif_skip_fexpm))]
         "f12.fexp2" => Ok(match a_f12(regs, p[0])?.final_exp() {
             Some(v) => Out::V(Val::F12(v)),
             None => Out::None,
         }),
+        #[cfg(not(john_yu_sm9_core_verif_skip_fexp))]
         "f12.first" => Ok(match vh::final_exp_first_chunk(&a_f12(regs, p[0])?) {
             Some(v) => Out::V(Val::F12(v)),
             None => Out::None,
         }),
+        #[cfg(not(john_yu_sm9_core_verif_skip_fexp))]
         "f12.last1" => v12(vh::final_exponentiation_last_chunk(&a_f12(regs, p[0])?)),
+        #[cfg(not(john_yu_sm9_core_verif_skip_fexp))]
         "f12.last2" => v12(vh::final_exp_last_chunk(&a_f12(regs, p[0])?)),
         "f12.to_gt" => Ok(Out::V(Val::Gt(vh::gt_from(a_f12(regs, p[0])?)))),
         // ---------------- Miller loops ----------------
         // ml.jac Q P : Jacobian numerator/denominator loop on the stored representation of Q; P must have z = 1
+        #[cfg(not(john_yu_sm9_core_verif_skip_ml))]
         "ml.jac" => v12(vh::g2_inner(&a_g2(regs, p[0])?).miller_loop(&vh::g1_inner(&a_g1(regs, p[1])?))),
         // ml.prepraw Q : coefficients computed from the stored representation (the public From<G2> normalises first)
+        #[cfg(not(john_yu_sm9_core_verif_skip_ml))]
         "ml.prepraw" => Ok(Out::V(Val::Prep(vh::G2Prepared::from(vh::g2_inner(&a_g2(regs, p[0])?))))),
+        #[cfg(not(john_yu_sm9_core_verif_skip_ml))]
         "ml.prep" => {
             let g1 = vh::g1_inner(&a_g1(regs, p[1])?);
             Ok(Out::V(Val::F12(a_prep(regs, p[0])?.miller_loop(&g1))))
         }
         // ---------------- raw base-field and Fq2 helpers used inside point / pairing arithmetic ----------------
+        #[cfg(not(john_yu_sm9_core_verif_skip_fqx))]
         "raw.fq.sqr" => vfq(rfq(regs, p[0])?.squared()),
+        #[cfg(not(john_yu_sm9_core_verif_skip_fqx))]
         "raw.fq.double" => vfq(rfq(regs, p[0])?.double()),
+        #[cfg(not(john_yu_sm9_core_verif_skip_fqx))]
         "raw.fq.triple" => vfq(rfq(regs, p[0])?.triple()),
+        #[cfg(not(john_yu_sm9_core_verif_skip_fqx))]
         "raw.fq.div2" => vfq(rfq(regs, p[0])?.div2()),
+        #[cfg(not(john_yu_sm9_core_verif_skip_fqx))]
         "raw.fq2.sqr" => vfq2(rfq2(regs, p[0])?.squared()),
+        #[cfg(not(john_yu_sm9_core_verif_skip_fqx))]
         "raw.fq2.double" => vfq2(rfq2(regs, p[0])?.double()),
+        #[cfg(not(john_yu_sm9_core_verif_skip_fqx))]
         "raw.fq2.triple" => vfq2(rfq2(regs, p[0])?.triple()),
+        #[cfg(not(john_yu_sm9_core_verif_skip_fqx))]
         "raw.fq2.div2" => vfq2(rfq2(regs, p[0])?.div2()),
+        #[cfg(not(john_yu_sm9_core_verif_skip_fqx))]
         "raw.fq2.nonres" => vfq2(rfq2(regs, p[0])?.mul_by_nonresidue()),
+        #[cfg(not(john_yu_sm9_core_verif_skip_fqx))]
         "raw.fq2.unitary" => vfq2(rfq2(regs, p[0])?.unitary_inverse()),
+        #[cfg(not(john_yu_sm9_core_verif_skip_fqx))]
         "raw.fq2.scale" => vfq2(rfq2(regs, p[0])?.scale(&rfq(regs, p[1])?)),
+        #[cfg(not(john_yu_sm9_core_verif_skip_fqx))]
         "raw.fq2.inv" => Ok(match rfq2(regs, p[0])?.inverse() {
             Some(v) => Out::V(Val::Fq2(vh::fq2_from(v))),
             None => Out::None,
         }),
+        #[cfg(not(john_yu_sm9_core_verif_skip_fqx))]
         "raw.g1.double" => Ok(Out::V(Val::G1(vh::g1_from(vh::g1_inner(&a_g1(regs, p[0])?).double())))),
+        #[cfg(not(john_yu_sm9_core_verif_skip_fqx))]
         "raw.g2.double" => Ok(Out::V(Val::G2(vh::g2_from(vh::g2_inner(&a_g2(regs, p[0])?).double())))),
         // ---------------- individual line functions of the two Miller loops (optional hooks) ----------------
         #[cfg(john_yu_sm9_core_verif_lines)]
@@ -207,11 +245,13 @@ pub fn exec(regs: &Regs, op: &str, p: &[&str]) -> R {
         #[cfg(not(john_yu_sm9_core_verif_lines))]
         "ln.etan" | "ln.eline" | "ln.ptan" | "ln.pline" | "ln.pval" | "ln.pi1" | "ln.pi2" => Ok(Out::Text("unsupported".into())),
         // ---------------- interleaved sum of products ----------------
+        #[cfg(not(john_yu_sm9_core_verif_skip_sop))]
         "sop.2" => {
             let a = [rfq(regs, p[0])?, rfq(regs, p[1])?];
             let b = [rfq(regs, p[2])?, rfq(regs, p[3])?];
             vfq(vh::sum_of_products_2(&a, &b))
         }
+        #[cfg(not(john_yu_sm9_core_verif_skip_sop))]
         "sop.4" => {
             let a = [rfq(regs, p[0])?, rfq(regs, p[1])?, rfq(regs, p[2])?, rfq(regs, p[3])?];
             let b = [rfq(regs, p[4])?, rfq(regs, p[5])?, rfq(regs, p[6])?, rfq(regs, p[7])?];
